@@ -73,11 +73,13 @@ var (
 var JSONPatchValues = []interface{}{"v1", "v2", float64(7), "7", true, "true", map[string]interface{}{"a": "b"}, "map[a:b]", []interface{}{"x", "y"}, "[x y]",
 	[]interface{}{float64(7)}, []interface{}{"7"}, float64(0), "", "0", false, "false"}
 
-// IDAlphabet is a small id alphabet so that add-existing / remove-absent are frequent.
-var IDAlphabet = []string{"k1", "k2", "k3", "key-4", "K_5"}
+// IDAlphabet is a small id alphabet so that add-existing / remove-absent are frequent. "k12" has "k1" as a prefix,
+// and "s1" / "k1" occur in both alphabets: a key and a service may carry the same id (nothing in the protocol forbids
+// it), which ids drawn from disjoint alphabets never do (seeding round k).
+var IDAlphabet = []string{"k1", "k2", "k3", "key-4", "K_5", "k12", "s1"}
 
-// SvcIDAlphabet is the service id alphabet.
-var SvcIDAlphabet = []string{"s1", "s2", "s3", "svc-4", "S_5"}
+// SvcIDAlphabet is the service id alphabet (shares "k1" and "s1" with IDAlphabet; "s12" has "s1" as a prefix).
+var SvcIDAlphabet = []string{"s1", "s2", "s3", "svc-4", "S_5", "s12", "k1"}
 
 // URIAlphabet is the alsoKnownAs alphabet.
 var URIAlphabet = []string{"https://a.example/1", "https://b.example/2", "did:example:123", "urn:uuid:0", "https://c.example/x?y=1#z"}
